@@ -149,8 +149,11 @@ let () =
         Array.iteri (fun i x -> if i >= 5 && starts_with x "prec=" then prec := String.sub x 5 (String.length x - 5)) hf;
         let g : gram = { terms = toks_of_string terms; nonterms = List.map (fun c -> nat_of_int (Char.code c - 65)) (List.init (String.length nts) (String.get nts));
                          prods = prods; start = nat_of_int (Char.code start - 65) } in
+        (* property-level (api) mismatches of a case are printed before fidelity ones *)
+        let pending_api = ref [] and pending_fid = ref [] in
         let mism opno kind what =
-          Printf.printf "MISMATCH line=%d op=%d kind=%s what=%s\n" !lineno opno kind what in
+          let l = Printf.sprintf "MISMATCH line=%d op=%d kind=%s what=%s\n" !lineno opno kind what in
+          if kind = "api" then pending_api := l :: !pending_api else pending_fid := l :: !pending_fid in
         (* split ops *)
         let opl = List.map (fun opres ->
           match split_on opres "->" with
@@ -258,12 +261,20 @@ let () =
                  end
                | None, None -> mism !opno "api" (Printf.sprintf "%s table unreadable" m))
             end
-          | "W" :: rest when res <> "?" ->
-            let w = match rest with [] -> "" | x :: _ -> x in
+          | (("W" | "X" | "Y") as opk) :: rest when res <> "?" ->
+            let w = match rest with [] -> "" | "_" :: _ -> "" | x :: _ -> x in
             let wt = toks_of_string w in
-            let member = match Lazy.force oracle with
-              | Some l -> Some (mem_str wt l) | None -> None in
-            if member = None then bump "oracle_out_of_fuel" 1;
+            let member =
+              if opk = "W" then begin
+                let m = match Lazy.force oracle with Some l -> Some (mem_str wt l) | None -> None in
+                if m = None then bump "oracle_out_of_fuel" 1; m
+              end else if opk = "X" then begin
+                (* a longer sentence with its leftmost derivation as witness, checked by lm_check *)
+                let ps = match rest with
+                  | _ :: d :: _ -> List.filter_map prod_of_text (split_on d ";") | _ -> [] in
+                if lm_check g ps wt then (bump "witnessed_long_sentences" 1; setmax "max_long_string_length" (String.length w); Some true)
+                else (bump "bad_witnesses" 1; None)
+              end else (bump "long_strings_without_witness" 1; None) in
             List.iter (fun r ->
               match split_on r "=" with
               | m :: _ when Hashtbl.mem tables m ->
@@ -344,6 +355,8 @@ let () =
          | Some false, Some false, Some true -> bump "class_lr1_not_lalr" 1
          | Some false, Some false, Some false -> bump "class_not_lr1" 1
          | _ -> ());
+        List.iter print_string (List.rev !pending_api);
+        List.iter print_string (List.rev !pending_fid);
         bump "accepted_parses" !accepted; bump "rejected_parses" !rejected;
         (* non-trivial: at least one table was built and both an accepted and a rejected string were seen *)
         if !built_ok > 0 && !accepted > 0 && !rejected > 0 then begin
